@@ -29,6 +29,15 @@ theorem join_eq_spec (cfg : Cfg) (items : List In) (ht : timely cfg false items 
     (run cfg St.init items).outs.map (·.res) = specResults cfg false items :=
   (run_spec cfg items).2 St.init rfl ht
 
+/-- the hypothesis of `join_eq_spec` is exact: a time-out delivered while no run is open is the
+    plugin's own `Panicf("timeout without joining, why?")` (the processor never does that: a
+    time-out event is only made by `blockGet`, which only runs while an action is busy) -/
+theorem join_untimely_panics (cfg : Cfg) (items : List In) (ht : timely cfg false items = false) :
+    (run cfg St.init items).fin = .error .other :=
+  (run_untimely cfg items).2 St.init rfl ht
+
+example : timely ⟨[[108, 111, 103]], 0, false⟩ false [In.timeout 0] = false := rfl
+
 /-- a tiny event: `{"log": <s>}` (bytes spelled out so that the kernel can evaluate) -/
 def lineEv (s : Bytes) (startOK contOK : Bool) : Ev :=
   ⟨0, .obj [([108, 111, 103], .str s)], startOK, contOK⟩
@@ -192,6 +201,17 @@ theorem k8s_line_joined (cfg : Cfg) (hm : cfg.maxSize = 0) (cs : List (Nat × By
 
 example : contentEndsLine [100, 92, 110] = true ∧ contentEndsLine [100, 92, 92, 110] = false ∧
     contentEndsLine [] = false := by decide
+
+/-- **the end-of-line test means what it should** (fix 7300d7e): on escaped text — backslash
+    written `\\`, newline written `\n`, other bytes as themselves — a chunk is taken for the end
+    of its line exactly when its TEXT ends with a newline. (The old test, "the last two escaped
+    bytes are `\n`", also fired on a text ending with a backslash and the letter n.) -/
+theorem k8s_isEnd_iff_newline (text : Bytes) :
+    endsLine (quote (esc text)) = (text.getLast? == some NL) := by
+  rw [endsLine, inner_quote, contentEndsLine_esc]
+
+example : endsLine (quote (esc [97, 10])) = true ∧ endsLine (quote (esc [97, 92, 110])) = false ∧
+    esc [97, 92, 110] = [97, 92, 92, 110] := by decide
 
 /-- **an idle instance is a fresh instance**: whenever a call is answered pass or discard (the
     processor may then move the instance to another stream) the plugin state is exactly the
